@@ -175,7 +175,7 @@ func runC06(p *Program, r *Report) {
 						}
 					}
 				}
-				r.Check(fresh || allowed[f.Name()], "C06.R5", c, p.Pos(st.Pos()), "parse nodes are rewritten only by commit()/ensurePipelineContains or on objects created in the same function", "a parse-tree node of a template is modified outside commit(): the rewrite is not tied to the once-only analysis")
+				r.Check(fresh || allowed[cname(f)], "C06.R5", c, p.Pos(st.Pos()), "parse nodes are rewritten only by commit()/ensurePipelineContains or on objects created in the same function", "a parse-tree node of a template is modified outside commit(): the rewrite is not tied to the once-only analysis")
 			}
 		}
 	}
